@@ -675,3 +675,17 @@ def rule_tree(ctx, R):
 
 
 RULES.append(("C04.TREE", "right-nested construction of the area tree: per-handler decision tables of the effects on the two trees, their cursors and the slots", rule_tree))
+
+
+def rule_listing_total(ctx, R):
+    """the `check` command prints what was parsed: every panic-capable site between check::run and the listing is
+    mechanically discharged or audited (the whole-binary audit of C13 restricted to what check::run reaches,
+    the parser itself excluded: C04.TOTAL has it)"""
+    from . import p_c13
+    fb = ctx.fb_all
+    skip = set(ctx.cg.reachable([PARSE])) if PARSE in fb.bodies else set()
+    n = p_c13.rule_panic(ctx, R, roots=["hyeong::app::check::run", "hyeong::app::check::print_un_opt_codes"], skip=skip)
+    R.floor("listing_sites", n or 0, 9, "panic-capable sites below check::run")
+
+
+RULES.append(("C04.LISTING", "`hyeong check` lists any parse result without crashing (empty listings, multi-line files): panic audit below check::run", rule_listing_total))
